@@ -13,6 +13,7 @@ import PyamgV.Proofs.ExtC19bBlock
 import PyamgV.Proofs.ExtC19bInst
 import PyamgV.Proofs.ExtC19bCoo
 import PyamgV.Proofs.ExtC19SVec
+import Mathlib.Analysis.Real.Sqrt
 
 /-! # C19 — matrix utilities compute their stated algebraic result
 
@@ -227,6 +228,8 @@ orthonormal basis and `H = V^T A V`, Ritz bounds, Lanczos = Arnoldi for `A = A^T
 restate vec_arnoldi_orthonormal := PyamgV.C19S.vec_arnoldi_orthonormal
 restate vec_arnoldi_ritz := PyamgV.C19S.vec_arnoldi_ritz
 restate vec_lanczos_eq_arnoldi := PyamgV.C19S.vec_lanczos_eq_arnoldi
+/-- (E39) the list-level function of the driver is that run -/
+restate approx_eig_vec_is_run := PyamgV.C19S.approxEigVec_eq
 
 /-! ### non-vacuity: the models do what the theorems say on concrete irregular inputs -/
 open PyamgV.C19 in
@@ -287,5 +290,16 @@ one-pass estimate from `v0 = (3,4)` is the Rayleigh quotient `12/25 > 0`: Ritz v
 below the spectral radius; the property promises the bound for Hermitian matrices only -/
 example : PyamgV.C19S.approxEigRat [[0, 1], [0, 0]] (1/1000000) false 1 [3, 4]
       = some ([[3/5, 4/5], [4/5, -3/5]], [[12/25, 16/25]], false) := by decide +kernel
+
+/-- (E39) the standing assumptions (`Exact`) hold over the real numbers with `Real.sqrt` and a positive tolerance: for
+every real matrix, every start vector `!= 0` and every number of passes, every Ritz value of the `Vector` run is
+bounded by every Rayleigh bound of the matrix -/
+example {n : Nat} (A : Vector (Vector ℝ n) n) (v0 : Vector ℝ n) (hv0 : PyamgV.C07.toFn v0 ≠ 0) (k : Nat) (ρ θ : ℝ)
+    (hray : ∀ x, |(PyamgV.C07.dotForm ℝ n).a (PyamgV.C07.linOf A x) x| ≤ ρ * (PyamgV.C07.dotForm ℝ n).a x x)
+    (y : Nat → ℝ)
+    (hr : PyamgV.C19S.ArnF.IsRitz (PyamgV.C19S.vecRun A Real.sqrt (1 / 10 ^ 10) false v0 k).cols.length
+      (PyamgV.C19S.hEntry (PyamgV.C19S.vecRun A Real.sqrt (1 / 10 ^ 10) false v0 k).cols) θ y) : |θ| ≤ ρ :=
+  (PyamgV.C19S.vec_arnoldi_ritz A Real.sqrt (1 / 10 ^ 10) (fun _ h => Real.mul_self_sqrt h) (by positivity)
+    v0 hv0 k θ y hr).1 ρ hray
 
 end PyamgV.Props.C19
